@@ -16,6 +16,7 @@ fn main() {
             "C19" => c19::replay(body),
             "C02" => c02::replay(body),
             "C18" => c18::replay(body),
+            "C15" => c15::replay(body),
             _ => { eprintln!("no replay for {prop}"); false }
         };
         println!("reproduced={reproduced}");
@@ -39,6 +40,7 @@ fn main() {
         "C19" => c19::main(tier, seed, outdir),
         "C02" => c02::main(tier, seed, outdir),
         "C18" => c18::main(tier, seed, outdir),
+        "C15" => c15::main(tier, seed, outdir),
         _ => { eprintln!("unknown property {prop}"); std::process::exit(2); }
     }
 }
